@@ -152,6 +152,38 @@ class SimStream:
             self.log.append((self.clock.seq, self.name, 't', 0, 0, self.pos))
         return self.pos
 
+    # less common parts of the binary-file surface, so that an equivalent way of reading is not an alarm
+    def read1(self, n=-1):
+        return self.read(n)
+
+    def readinto(self, b):
+        data = self.read(len(b))
+        b[:len(data)] = data
+        return len(data)
+
+    def readline(self, limit=-1):
+        start = self.pos
+        end = self.data.find(b'\n', start, self.size)
+        end = self.size if end < 0 else end + 1
+        if limit is not None and limit >= 0:
+            end = min(end, start + limit)
+        return self.read(max(0, end - start))
+
+    def getvalue(self):
+        return self.data[:self.size]
+
+    def getbuffer(self):
+        return memoryview(self.data[:self.size])
+
+    def fileno(self):
+        raise io.UnsupportedOperation('fileno')
+
+    def isatty(self):
+        return False
+
+    def flush(self):
+        pass
+
     def close(self):
         self.closed = True
 
